@@ -1390,6 +1390,14 @@ impl<R: BufRead> Reader<R> {
             }
             // Decode as many rows as will fit in the current batch
             if self.block_cursor < self.block_data.len() {
+                if self.block_count == 0 {
+                    // All declared records were decoded but payload bytes remain: without this
+                    // check `decode_block` makes no progress and the loop never terminates.
+                    return Err(AvroError::ParseError(format!(
+                        "Avro block has {} bytes left after its declared record count",
+                        self.block_data.len() - self.block_cursor
+                    )));
+                }
                 let (consumed, records_decoded) = self
                     .decoder
                     .decode_block(&self.block_data[self.block_cursor..], self.block_count)?;
